@@ -426,6 +426,15 @@ const char *SolverAppOptionParser::Parse(char **&argv) {
   return stub;
 }
 
+#ifdef AMPL_MP_VERIF
+// Verification hook (compiled only with -DAMPL_MP_VERIF): named points at
+// which a replay program can deliver a signal deterministically.
+extern "C" void mp_verif_sigpoint(const char *name);
+# define MP_VERIF_SIGPOINT(name) mp_verif_sigpoint(name)
+#else
+# define MP_VERIF_SIGPOINT(name) ((void)0)
+#endif
+
 mp::internal::atomic<const char*> SignalHandler::signal_message_ptr_;
 mp::internal::atomic<unsigned> SignalHandler::signal_message_size_;
 mp::internal::atomic<InterruptHandler> SignalHandler::handler_;
@@ -503,7 +512,9 @@ SignalHandler::SignalHandler(BasicSolver &s)
   signal_message_size_ = static_cast<unsigned>(message_.size());
   std::signal(SIGINT, HandleSigInt);
   std::signal(SIGTERM, HandleSigInt);
+  MP_VERIF_SIGPOINT("ctor.after_signal");
   stop_ = 0;
+  MP_VERIF_SIGPOINT("ctor.end");
 }
 
 SignalHandler::~SignalHandler() {
@@ -511,11 +522,14 @@ SignalHandler::~SignalHandler() {
   stop_ = 1;
   handler_ = 0;
   signal_message_size_ = 0;
+  MP_VERIF_SIGPOINT("dtor.end");
 }
 
 void SignalHandler::SetHandler(InterruptHandler handler, void *data) {
   handler_ = handler;
+  MP_VERIF_SIGPOINT("sethandler.after_store1");
   data_ = data;
+  MP_VERIF_SIGPOINT("sethandler.after_store2");
 }
 
 void SignalHandler::HandleSigInt(int sig) {
